@@ -188,27 +188,36 @@ class FeatureStructure:
                     current_dereferenced.content[feature] = FeatureStructure()
                 current_dereferenced.content[feature].unify(other_dereferenced.content[feature])
 
-    def subsumes(self, other: "FeatureStructure"):
+    def subsumes(self, other: "FeatureStructure", shared=None):
         """Check whether the current feature structure subsumes another one.
 
         Parameters
         ----------
         other : :class:`~pyformlang.fcfg.FeatureStructure`
             The other feature structure to unify.
+        shared : dict, optional
+            For internal usage: the nodes already matched, as a value shared \
+            by several paths here has to be shared by the same paths there
 
         Returns
         ----------
         subsumes : bool
             Whether the current feature structure subsumes the one.
         """
+        if shared is None:
+            shared = {}
         current_dereferenced = self.get_dereferenced()
         other_dereferenced = other.get_dereferenced()
+        if id(current_dereferenced) in shared:
+            return shared[id(current_dereferenced)] is other_dereferenced
+        shared[id(current_dereferenced)] = other_dereferenced
         if current_dereferenced.value != other_dereferenced.value:
             return False
         for feature in current_dereferenced.content:
             if feature not in other_dereferenced.content:
                 return False
-            if not current_dereferenced.content[feature].subsumes(other_dereferenced.content[feature]):
+            if not current_dereferenced.content[feature].subsumes(
+                    other_dereferenced.content[feature], shared):
                 return False
         return True
 
